@@ -12,6 +12,7 @@ import (
 	"fmt"
 	"hash/fnv"
 	"os"
+	"runtime"
 	"runtime/debug"
 	"strconv"
 	"strings"
@@ -176,6 +177,7 @@ func Main(spec *Spec) {
 			c.LogHash = "tables"
 		} else {
 			core.PoolReset(c.EnvSeed)
+			core.BaseGoroutines = runtime.NumGoroutine()
 			v, _ = spec.Exec(c, out)
 		}
 		c.Violation = v
@@ -219,6 +221,7 @@ func Main(spec *Spec) {
 		c.Proc = &sim.ProcRef{Seed: strconv.FormatUint(*seed, 10), Worker: *worker, Run: ri, Tier: *tier}
 		sim.SetCurrent(c)
 		core.PoolReset(c.EnvSeed)
+		core.BaseGoroutines = runtime.NumGoroutine()
 		v, nontrivial := spec.Exec(c, out)
 		out.Runs++
 		out.Steps += int64(len(c.Ops))
